@@ -278,4 +278,58 @@ def rule_d(prog, rep):
             rep.violation('C07.d', f'{fld}.remove', f.loc, f'{fld} entry of the client is not removed', key=f'C07.d/{fld}')
 
 
-RULES = [('C07.a', rule_a), ('C07.b', rule_b), ('C07.c', rule_c), ('C07.d', rule_d)]
+def rule_e(prog, rep):
+    rep.rule('C07.e', 'T3+T7', 'what is registered is recorded: in Worterbuch::subscribe / psubscribe / subscribe_ls every Ok exit that '
+             'registered a subscriber (Subscribers::add_subscriber / Store::add_ls_subscriber) has also recorded it in the table '
+             'unsubscribe and the session clean-up work from (self.subscriptions / self.ls_subscriptions), under '
+             'SubscriptionId(client_id, transaction_id) and with the path it was registered under')
+    crate = prog.crate(WB)
+    for fname, reg, table in (('subscribe', 'subscribers::Subscribers::add_subscriber', 'subscriptions'),
+                              ('psubscribe', 'subscribers::Subscribers::add_subscriber', 'subscriptions'),
+                              ('subscribe_ls', f'{STORE}::add_ls_subscriber', 'ls_subscriptions')):
+        f = crate.fn(f'{CORE}::{fname}')
+        b = Bindings(crate, f)
+
+        def is_rec(nd):
+            if nd.get('k') != 'call' or short(callee(nd)) != 'insert' or not nd['args']:
+                return False
+            a0 = nd['args'][0]
+            while a0.get('k') in ('ref',):
+                a0 = a0['e']
+            return a0.get('k') == 'field' and a0['name'] == table
+
+        def classify(nd, anc):
+            if nd.get('k') == 'call' and callee(nd) == reg:
+                return 'reg'
+            if is_rec(nd):
+                return 'rec'
+            return None
+        paths = Tracer(crate, classify).run_fn(f)
+        oks = ok_exits(paths)
+        problems = []
+        if not oks:
+            problems.append('no Ok path')
+        for (ex, t, v) in oks:
+            tb = [base(x) for x in t if '@' not in x]
+            if tb.count('reg') != 1 or tb.count('rec') != 1:
+                problems.append(f'an Ok exit with {tb.count("reg")} registration(s) and {tb.count("rec")} record(s)')
+        regs = crate.calls(f, lambda c: c == reg)
+        recs = [nd for nd, a in crate.walk_fn(f) if is_rec(nd)]
+        if len(regs) == 1 and len(recs) == 1:
+            ko = b.origins(recs[0]['args'][1])
+            kn = b.deref_local(recs[0]['args'][1])
+            if not (kn.get('k') == 'call' and short(callee(kn)) == 'new' and 'SubscriptionId' in callee(kn) and
+                    b.origins(kn['args'][0]) == {'param(client_id)'} and b.origins(kn['args'][1]) == {'param(transaction_id)'}):
+                problems.append(f'the record is not keyed by SubscriptionId(client_id, transaction_id) ({sorted(ko)})')
+            if b.origins(recs[0]['args'][2]) != b.origins(regs[0][0]['args'][1]):
+                problems.append('the recorded path is not the path the subscriber was registered under')
+        else:
+            problems.append(f'{len(regs)} registration sites, {len(recs)} record sites')
+        if problems:
+            rep.violation('C07.e', f'Worterbuch::{fname}', f.loc, '; '.join(sorted(set(problems))),
+                          key=f'C07.e/{fname}/' + '|'.join(sorted({p_.split(' (')[0] for p_ in problems})))
+        else:
+            rep.ok('C07.e', f'Worterbuch::{fname}', f.loc, f'{len(oks)} Ok paths: one registration, one record in self.{table} under (client, transaction) with the same path')
+
+
+RULES = [('C07.e', rule_e), ('C07.a', rule_a), ('C07.b', rule_b), ('C07.c', rule_c), ('C07.d', rule_d)]
